@@ -13,6 +13,8 @@ from zope.interface import (
 )
 from zope.interface.adapter import AdapterRegistry
 
+from zope.interface.interface import InterfaceClass
+
 from zmon import util
 from zmon.util import nm
 
@@ -35,11 +37,26 @@ class World:
 
     # -- model ---------------------------------------------------------------
     def closure(self, ifs):
+        """Interfaces implied by the listed declarations.  An element may also be a class's implementation
+        specification (declared as a whole: it keeps following that class's declarations)."""
         s = {Interface}
         for i in ifs:
-            s.add(i)
-            s.update(util.reach(i, util.spec_bases)[1])
+            if isinstance(i, InterfaceClass):
+                s.add(i)
+            s.update(x for x in util.reach(i, util.spec_bases)[1] if isinstance(x, InterfaceClass))
         return s
+
+    @staticmethod
+    def flat(lst):
+        """What ``directlyProvidedBy(ob) - I`` keeps of a declared class specification: its interfaces, one by one
+        (``Declaration.__sub__`` works on ``interfaces()``)."""
+        out = []
+        for p in lst:
+            if isinstance(p, InterfaceClass):
+                out.append(p)
+            else:
+                out.extend(p.interfaces())
+        return out
 
     def cbound(self, c, which, memo=None):
         if c is object:
@@ -239,6 +256,14 @@ class World:
             return
         o = rng.choice(self.objs)
         ifs = self.pick()
+        if op in ('dp', 'ap') and rng.random() < 0.2:
+            # a class's implementation specification among the directly declared "interfaces" (of a class that is
+            # not in the object's MRO, so that it cannot be redundant as a whole)
+            others = [k for k in self.classes if k not in type(o).__mro__]
+            if others:
+                ifs = list(ifs)
+                ifs.insert(rng.randint(0, len(ifs)), implementedBy(rng.choice(others)))
+                ctx.count('direct_declarations_with_class_specification')
         if op == 'gc':
             gc.collect()
             ctx.op('gc')
@@ -288,15 +313,18 @@ class World:
             ctx.op(op, o.zname, nm(ifs))
             directlyProvides(o, *ifs)
         elif op == 'ap':
-            self.declare_obj(o, ifs, keepM=self.M.get(id(o), []), keepY=self.Y.get(id(o), []))
+            # alsoProvides(ob, *new) is directlyProvides(ob, directlyProvidedBy(ob), *new): the old declaration is
+            # passed as a Declaration, which is flattened into its interfaces (a class specification declared
+            # earlier is replaced by what it lists now)
+            self.declare_obj(o, ifs, keepM=self.flat(self.M.get(id(o), [])), keepY=self.flat(self.Y.get(id(o), [])))
             ctx.op(op, o.zname, nm(ifs))
             alsoProvides(o, *ifs)
         elif op == 'nlp':
             if not ifs:
                 return
             i = ifs[0]
-            keepM = [p for p in self.M.get(id(o), []) if not (p is i or p.extends(i))]
-            keepY = [p for p in self.Y.get(id(o), []) if not (p is i or p.extends(i))]
+            keepM = [p for p in self.flat(self.M.get(id(o), [])) if not (p is i or p.extends(i))]
+            keepY = [p for p in self.flat(self.Y.get(id(o), [])) if not (p is i or p.extends(i))]
             self.declare_obj(o, [], keepM=keepM, keepY=keepY)
             Lc = self.cbound(type(o), 'L')
             Uc = self.cbound(type(o), 'U')
